@@ -116,7 +116,7 @@ PROPS["C01"] = {
         "sequence is non-empty; distinct = distinct (type, sequence content) by hash.",
         TRUST,
         "quick: TINY(3,6)+TINY(4,4) x 6 maps x 6 element types x 4 aliases, BOUNDARY lengths <= 8193; thorough: TINY(4,7), "
-        "TINY(5,6), BOUNDARY up to 2^20+1, both build profiles. Lengths near 2^43 are out of reach (memory)."),
+        "TINY(5,6), BOUNDARY up to 2^20+1, both build profiles. Lengths near 2^43 are out of reach (memory). Every long input and a quarter of the tiny ones are swept a second time on the deserialized copy of the structure (counter derived_states_swept); position / occurrence alphabets include the wrap-around arguments 2^63, 2^63+n-1, 2^62+n-1, 2^56+n-1, 2^55+n-1."),
     "vacuity": need(["cases_with_3+_levels", "cases_with_2+_superblocks", "empty_cases", "cases_with_one_distinct_symbol"]),
 }
 
@@ -149,7 +149,7 @@ PROPS["C03"] = {
         "Vec-based reference. Non-trivial = non-empty sequence; distinct by content hash.",
         TRUST + ["the hook src/verif_hooks.rs only reorders tied items"],
         "quick: TINY(3,6)+TINY(4,4) for WT, TINY(4,5) for HWT, HUFF(A<=10), CHAIN(2..20), ties for <= 6 symbols; "
-        "thorough: larger TINY, A<=13, CHAIN up to 33 (33-bit codes: known finding), BOUNDARY up to 2^20+1."),
+        "thorough: larger TINY, A<=13, CHAIN up to 33 (33-bit codes: known finding), BOUNDARY up to 2^20+1. Every long input and a quarter of the tiny ones are swept a second time on the deserialized copy of the structure (counter derived_states_swept); position / occurrence alphabets include the wrap-around arguments 2^63, 2^63+n-1, 2^62+n-1, 2^56+n-1, 2^55+n-1."),
     "vacuity": need(["tie_scripts_explored", "cases_with_3+_levels", "cases_with_one_distinct_symbol", "empty_cases"]),
 }
 
@@ -165,7 +165,7 @@ PROPS["C05"] = {
         "non-empty; distinct by content hash.",
         TRUST,
         "quick: TINYQ(10), lengths <= 24577 (all positions up to 2049, boundary positions above); thorough: TINYQ(11), lengths up "
-        "to 2^20+1, all positions up to 8193, both build profiles."),
+        "to 2^20+1, all positions up to 8193, both build profiles. Every long input and a quarter of the tiny ones are swept a second time on the deserialized copy (counter derived_states_swept); position / occurrence alphabets include the wrap-around arguments 2^63, 2^63+n-1, 2^62+n-1, 2^56+n-1, 2^55+n-1."),
     "vacuity": need(["cases_crossing_two_select_samples", "cases_with_2+_superblocks_512", "cases_with_absent_symbol", "empty_cases"]),
 }
 
@@ -179,7 +179,7 @@ PROPS["C06"] = {
         "single one/zero) x RSNarrow/RSWide x {new, From}; every get, rank1, rank0, select1, select0, n_ones, n_zeros (bv_len) is "
         "compared with a Vec<bool> reference. Non-trivial = non-empty; distinct by content hash.",
         TRUST,
-        "quick: TINYBIT(18), lengths <= 65537; thorough: TINYBIT(22), lengths up to 2^21+1, both build profiles. The bit vector under the structure is obtained by every route the API offers (bools, sorted positions, repeated unsorted positions, a BitVectorMut history)."),
+        "quick: TINYBIT(18), lengths <= 65537; thorough: TINYBIT(22), lengths up to 2^21+1, both build profiles. The bit vector under the structure is obtained by every route the API offers (bools, sorted positions, repeated unsorted positions, a BitVectorMut history). Every long input and a quarter of the tiny ones are swept a second time on the deserialized copy of the structure (counter derived_states_swept); position / occurrence alphabets include the wrap-around arguments 2^63, 2^63+n-1, 2^62+n-1, 2^56+n-1, 2^55+n-1. PrefixRun family: the m*S-th one / zero (S = 1024, 8192; m = 1, 2) at distance 0,1,2,62..65 from the end for lengths m*S + {64,65,127,128,512,576}."),
     "vacuity": need(["cases_over_8192_ones", "cases_over_8192_zeros", "cases_over_32768_bits", "all_zero_cases", "all_one_cases", "empty_cases"]),
 }
 
@@ -194,7 +194,7 @@ PROPS["C07"] = {
         "from a BitVector, from bools and from positions; every select1/select0 (all k in 0..=count+1, usize::MAX), len, counts, "
         "get, iter/ones/zeros and *_with_pos from group boundaries is compared with a Vec<bool> reference.",
         TRUST,
-        "quick: g <= 4 over {dense, threshold, sparse} (+ g <= 2 over 5 kinds), TINYBIT(15); thorough: g <= 6 (+ g <= 3), TINYBIT(18), both profiles."),
+        "quick: g <= 4 over {dense, threshold, sparse} (+ g <= 2 over 5 kinds), TINYBIT(15); thorough: g <= 6 (+ g <= 3), TINYBIT(18), both profiles. Every long input and a quarter of the tiny ones are swept a second time on the deserialized copy of the structure (counter derived_states_swept); position / occurrence alphabets include the wrap-around arguments 2^63, 2^63+n-1, 2^62+n-1, 2^56+n-1, 2^55+n-1. The short-shape family has 7 kinds: the 5 evenly spread ones plus span-65535 groups packed at the start (last element alone at offset 65535) and packed at the end (last 32 elements in the final 33 bits, one hole)."),
     "vacuity": need(["cases_with_sparse_then_dense_group_of_ones", "cases_with_sparse_then_dense_group_of_zeros",
                      "cases_with_threshold_group_of_ones", "cases_with_dense_then_sparse_group_of_ones", "empty_cases"]),
 }
@@ -233,7 +233,7 @@ PROPS["C12"] = {
         "configurations visited, transitions = calls executed.",
         TRUST,
         "sequences up to length 6 (thorough 7) for the double-ended histories (all interleavings, also on Default::default() trees), TINYBIT(7)/TINYQ(4) + boundary lengths; next/nth/size_hint histories on inputs of 130..1025 elements "
-        "for the forward iterators."),
+        "for the forward iterators. Iterator operations (mc/src/iterops.rs): 16 forward (count, last, fold, max, eq, find x4, position, all, nth x3 incl. usize::MAX, skip, step_by) and 9 double-ended (rfold, rfind, nth_back incl. usize::MAX, rev().nth, rposition) operations on the concrete iterator types after every prefix of a next() and b next_back() calls (a <= n+1, b <= 2) on all short inputs, and parameterised ones (arguments 0..513, usize::MAX) after prefixes 0,1,3,63..65,127..129,200,255..257,511..513,n-1,n,n+1 on inputs of 130..1025 elements incl. aperiodic ones; each followed by len()/next()/len() (counter iterator_operations)."),
     "vacuity": lambda results: None if _merge_counters(results)[0].get("histories", 0) > 1000 else "fewer than 1000 histories",
 }
 
@@ -249,7 +249,7 @@ PROPS["C13"] = {
         "i <= n+1, the three iterators, equality with from_iter of the same values, inequality with a one-symbol neighbour). "
         "Plus the E1 family: collect of every integer type over all of TINYQ(L) with values offset by multiples of 4 and negated.",
         TRUST + ["stateright 0.31"],
-        "quick: depth 5 from empty, 4 from the other starts, TINYQ(6); thorough: depth 6 / 5, TINYQ(7), both profiles."),
+        "quick: depth 5 from empty, 4 from the other starts, TINYQ(6); thorough: depth 6 / 5, TINYQ(7), both profiles. Iteration: next() histories and the iterator operations of C12 (mc/src/iterops.rs: count, last, fold, max, eq, find, position, all, nth, skip, step_by after every prefix) on QVector / RSQVector iterators over TINYQ(4) (thorough 5) and periodic + aperiodic inputs of 127..1025 symbols; get at the wrap-around arguments 2^63, 2^63+n-1, 2^62+n-1, 2^56+n-1, 2^55+n-1."),
     "vacuity": lambda results: None if _merge_counters(results)[0].get("states", 0) > 1000 else "fewer than 1000 states",
 }
 
@@ -298,7 +298,7 @@ PROPS["C09"] = {
         "plus a digest of every answer of the complete query sweep per case, compared between the builds with and without the "
         "crate feature `prefetch`. Non-trivial = non-empty sequence.",
         TRUST + ["rank itself is checked against the reference by C01/C02"],
-        "quick: lengths <= 20481, builds chk+prefetch / chk without prefetch / fast+prefetch; thorough: lengths <= 65537 and all four builds."),
+        "quick: lengths <= 20481, builds chk+prefetch / chk without prefetch / fast+prefetch; thorough: lengths <= 65537 and all four builds. Plus all of TINY(3,4) (thorough 5) over u8/u64/u128 with full-width values; every comparison is repeated on the deserialized copy of the tree (all symbols, every 7th position on long inputs); symbols include 2^64+s for occurring s."),
     "vacuity": need(["cases_with_3+_levels", "cases_with_2+_prefetch_samples", "feature_digests_compared"]),
 }
 
@@ -313,7 +313,7 @@ PROPS["C10"] = {
         "(validity decided by the reference model), each unchecked method - get_unchecked, rank_unchecked, select_unchecked, "
         "rank1/rank0_unchecked, select1/select0_unchecked, occs_unchecked, occs_smaller_unchecked, rank_prefetch_unchecked, "
         "get_bits_unchecked - must return exactly what its checked twin returns (a debug assertion firing on valid input is a "
-        "panic and therefore a violation).",
+        "panic and therefore a violation). A checked method that answers None on such arguments while the unchecked one returns a value is reported as a disagreement (class checked-none).",
         TRUST,
         "TINY(3,4) x 2 value maps x all types, Huffman profiles up to 5 symbols, boundary lengths up to 4097 (thorough 24577), "
         "TINYBIT(9), DArray group shapes up to 2 groups; profiles chk (debug assertions + overflow checks) and fast."),
@@ -327,7 +327,7 @@ PROPS["C11"] = {
     "evidence": exploration_evidence(
         "bounded-exhaustive: every value of the shared zoo (all serializable types, empty values included) is serialized with "
         "bincode and deserialized; deserialization must succeed, the result must compare equal to the original in both "
-        "directions, re-serialize to the identical bytes, and give the identical digest over the complete query sweep of its type.",
+        "directions, re-serialize to the identical bytes, and give the identical digest over the complete query sweep of its type. The round trip is made twice: of the value before it has answered any query, and of the same value after the complete sweep (equality and bytes again; the two copies must also equal each other).",
         TRUST + ["bincode 1.3.3"],
         "same zoo as C10; thorough adds longer inputs and the fast profile."),
     "vacuity": need(["round_trips", "empty_cases"]),
@@ -474,7 +474,7 @@ PROPS["C14"] = {
         "lengths sit just after a capacity doubling. Non-trivial = n > 1000.",
         TRUST + ["the counting #[global_allocator] (requested sizes, not allocator slop)"],
         "quick: n <= 262145; thorough: n <= 2^22+1 and both profiles. The per-level constant (2048 bytes) and the 1% head-room are "
-        "calibrated on the current tree (largest case uses 97.7% of its bound)."),
+        "calibrated on the current tree (largest case uses 97.7% of its bound). Lengths also at 9/16, 5/8, 3/4, 7/8, 8/9, 15/16 of 2^k (+257); collect paths also from iterators whose size hint is unknown, a loose upper bound (8n+4096), or a loose lower bound (n/2); RSWide / RSNarrow also over bit vectors collected that way."),
     "vacuity": need(["large_cases"]),
 }
 
@@ -491,7 +491,7 @@ PROPS["C15"] = {
         "tables) with tables = 10*(m+1) + 40*distinct + 4096 bytes, and heap - tables <= 1.01 * heap(plain tree over the same "
         "sequence) + 2048*levels. Non-trivial = n > 1000.",
         TRUST + ["the counting allocator", "minimum_redundancy for the code depth used in the additive term"],
-        "quick: n <= 2^18; thorough: n <= 2^21, both profiles."),
+        "quick: n <= 2^18; thorough: n <= 2^21, both profiles. The level data itself is bounded exactly: the level sizes are read from the serde representation (field lens; counter level_data_measured) and 2*sum [HWT: sum] <= n*(H0+2) [H0+1] and <= the plain tree's n*bits*levels, with no additive allowance. Profiles with a frequent symbol of value 2^17+5 / 2^20+1; construction histories (two trees with permuted counts built one after the other on one thread) up to n = 261120."),
     "vacuity": need(["cases_with_entropy_well_below_log_sigma", "cases_with_one_distinct_symbol"]),
 }
 
@@ -508,7 +508,7 @@ PROPS["C16"] = {
         "equal the byte count divided by 2^10/2^20/2^30 exactly. Non-trivial = n > 1000.",
         TRUST + ["the counting allocator"],
         "quick: n <= 131073 (DArray up to 320000 bits); thorough: n <= 2^20+1, both profiles. Components below 2% of a structure "
-        "are inside the tolerance the property grants."),
+        "are inside the tolerance the property grants. Construction paths and lengths as in C14 (hinted iterators, fractions of 2^k); the bytes of a DArray<true> loaded as DArray<false> and the reverse (counter cross_flavour_deserializations)."),
     "vacuity": need(["empty_vectors_with_reserved_capacity", "sparse_darray_cases"]),
 }
 
@@ -523,7 +523,7 @@ PROPS["C17"] = {
         "value at every byte position on 4 backgrounds (the whole in-byte table), all 64x64 runs and rotated runs; "
         "select_in_word_u128 on all pairs of 215 boundary words (empty upper / lower halves included) for all k < 128 with 128 "
         "as not-found; popcnt_wide::<0,1,2,4,8,9> on all slices of length 0..9 over a word alphabet; msb exhaustively for u8/u16 "
-        "and on all one-/two-bit values and 2^j-1 for u32/u64/usize/u128; stable_partition_of_4/_of_2 for all six element types "
+         "and on all one-/two-bit values and 2^j-1 for u32/u64/usize/u128, exhaustively for i8/i16 and on 0, +-1, +-2^j, 2^j+1, MIN, MAX for i32/i64/isize/i128 (highest set bit of the two's complement); stable_partition_of_4/_of_2 for all six element types "
         "and EVERY shift below the width on all digit sequences of length <= 5 whose elements carry unique low/high tags and "
         "all-ones noise above the digit (result must equal the stable sort by the digit); text_remap on all byte strings of "
         "length <= 5 over {0,1,7,200,255}. Reference: naive bit scans and sort_by_key. Every case is non-trivial.",
@@ -585,6 +585,6 @@ PROPS["C18"] = {
                  "intra-query preemption is covered by the independence argument: when the arena digest never changes no query "
                  "writes shared memory, so read-only steps commute"],
         "depth 2 over <= 90 queries (thorough: depth 3 over 40), 2x3 and 3x2 thread harnesses, preemption bound 1 with a point "
-        "cap (reported in vacuity_counters.caps_hit); sequential consistency only; state kept in statics is visible only through answers."),
+        "cap (reported in vacuity_counters.caps_hit); sequential consistency only; state kept in statics is visible only through answers. The preemption explorer runs every (prefix, A, B) triple in three modes: on one shared instance (histories accumulate), on a never-queried clone and on a never-queried deserialized copy of a never-queried master (first-use effects); stress rounds after the first use fresh copies too. Subjects include 150k-600k element inputs with a rare symbol / very sparse bits (select ranges of more than 64 superblocks)."),
     "vacuity": lambda results: None if _merge_counters(results)[0].get("schedules", 0) > 1000 and _merge_counters(results)[0].get("subjects_with_one_reachable_state", 0) > 10 else "too few schedules or subjects",
 }
